@@ -34,7 +34,7 @@ def proof_side(pid, thorough):
     if not tok:
         res["broken"].append(f"translator: {tmsg}")
     # only the modules this property's theorems depend on (a broken obligation of another property is that property's business)
-    okb, log, failed = core.lake_build((f"ShapeVerif.Props.{pid}", "driver"))
+    okb, log, failed = core.lake_build(tuple(f"ShapeVerif.Props.{m}" for m in core.props_modules(pid)) + ("driver",))
     res["build_ok"] = okb
     if not okb:
         res["build_log_tail"] = log[-4000:]
@@ -53,7 +53,7 @@ def proof_side(pid, thorough):
             elif not set(ax[n]) <= core.ALLOWED_AXIOMS:
                 res["broken"].append(f"theorem {n} uses axioms {ax[n]}")
         if thorough:
-            rc, out = core.sh(f"lake env leanchecker ShapeVerif.Props.{pid}", cwd=core.LEAN, timeout=3000)
+            rc, out = core.sh("lake env leanchecker " + " ".join(f"ShapeVerif.Props.{m}" for m in core.props_modules(pid)), cwd=core.LEAN, timeout=3000)
             res["leanchecker_rc"] = rc
             if rc != 0:
                 res["broken"].append("leanchecker: " + out[-300:])
